@@ -688,6 +688,25 @@ Proof.
   destruct X as (X1 & X2 & X3). split; [exact X1|]. split; [exact X2|]. unfold sizes. rewrite X3, Sl. reflexivity.
 Qed.
 
+Lemma await_coro_ok coro heap st x f w mode : Inv coro st -> frames_of x = 1 -> plain_op x ->
+  step_ok coro heap st x (fst (await_coro_step coro heap st f w mode)) (snd (await_coro_step coro heap st f w mode)).
+Proof.
+  intros I F1 P1. unfold await_coro_step.
+    destruct (inr f NF && mode_ok coro mode && ((f_st (getf st f) =? 2) || (f_st (getf st f) =? 3))) eqn:C;
+      cbn [fst snd]; [|apply rejected_ok; exact I].
+    andb_split. destruct (mode =? 2) eqn:M2.
+    { assert (coro = true) as -> by (unfold mode_ok in *; destruct coro; [reflexivity|exfalso; lia]).
+      destruct (defer_start st (2, w, f)) as [st1 c] eqn:D. cbn [fst snd].
+      exact (deferred_ok heap st x _ st1 c 0 I F1 P1 D). }
+    destruct (f_st (getf st f) =? 3).
+    + destruct (after_start coro mode st [(w, f_out (getf st f), f_val (getf st f))]) as [[[st1 ev] c] k] eqn:A. cbn [fst snd].
+      eapply started_ok; try exact A; try exact F1; try exact P1; auto with s3; cbn; try tauto; lia.
+    + match goal with |- context [after_start coro mode ?sa ?e] => destruct (after_start coro mode sa e) as [[[st1 ev] c] k] eqn:A end.
+      cbn [fst snd]. replace k with (k + 0) by lia.
+      eapply started_ok; try exact A; try exact F1; try exact P1; auto with s3; cbn; try tauto; try lia.
+      eapply same3_trans; [apply same3_setf|apply same3_addlive].
+Qed.
+
 Theorem step_spec coro heap st x : Inv coro st ->
   step_ok coro heap st x (fst (step coro heap st x)) (snd (step coro heap st x)).
 Proof.
@@ -698,20 +717,7 @@ Proof.
   - (* FGetP *)
     match goal with |- context [if ?c then _ else (st, rejected)] => destruct c end; cbn [fst snd]; [|apply rejected_ok; exact I].
     apply simple_ok; auto with s3; try apply c0_frames; cbn; try reflexivity; try lia; intros; lia.
-  - (* FAwaitCoro *)
-    destruct (inr f NF && mode_ok coro mode && ((f_st (getf st f) =? 2) || (f_st (getf st f) =? 3))) eqn:C;
-      cbn [fst snd]; [|apply rejected_ok; exact I].
-    andb_split. destruct (mode =? 2) eqn:M2.
-    { assert (coro = true) as -> by (unfold mode_ok in *; destruct coro; [reflexivity|exfalso; lia]).
-      destruct (defer_start st (2, w, f)) as [st1 c] eqn:D. cbn [fst snd].
-      exact (deferred_ok heap st (FAwaitCoro f w mode) _ st1 c 0 I eq_refl Logic.I D). }
-    destruct (f_st (getf st f) =? 3).
-    + destruct (after_start coro mode st [(w, f_out (getf st f), f_val (getf st f))]) as [[[st1 ev] c] k] eqn:A. cbn [fst snd].
-      eapply started_ok; try exact A; auto with s3; cbn; try tauto; lia.
-    + match goal with |- context [after_start coro mode ?sa ?e] => destruct (after_start coro mode sa e) as [[[st1 ev] c] k] eqn:A end.
-      cbn [fst snd]. replace k with (k + 0) by lia.
-      eapply started_ok; try exact A; auto with s3; cbn; try tauto; try lia.
-      eapply same3_trans; [apply same3_setf|apply same3_addlive].
+  - (* FAwaitCoro *) apply await_coro_ok; [exact I|reflexivity|exact Logic.I].
   - (* FAwaitSync *)
     match goal with |- context [if ?c then _ else (st, rejected)] => destruct c end; cbn [fst snd]; [|apply rejected_ok; exact I].
     destruct (f_st (getf st f) =? 3); cbn [fst snd].
@@ -724,6 +730,9 @@ Proof.
     + apply simple_ok; auto with s3; try apply c0_frames; cbn; try reflexivity; try lia; intros; lia.
     + apply simple_ok; try apply c0_frames; cbn; try reflexivity; try lia; auto; try (intros; lia).
       eapply same3_trans; [apply same3_setf|apply same3_setc].
+  - (* FAwaitCbA *)
+    destruct (inr cap 3); [|cbn [fst snd]; apply rejected_ok; exact I].
+    apply await_coro_ok; [exact I|reflexivity|exact Logic.I].
   - (* FResolve *)
     cbv zeta.
     match goal with |- context [if ?c then _ else (st, rejected)] => destruct c end; cbn [fst snd]; [|apply rejected_ok; exact I].
@@ -843,7 +852,8 @@ Proof.
   - (* GNext *)
     match goal with |- context [if ?c then _ else (st, rejected)] => destruct c end; cbn [fst snd]; [|apply rejected_ok; exact I].
     destruct (nth (n g) (gens st) None) as [[[cur k] a]|]; cbn [fst snd]; [|apply rejected_ok; exact I].
-    destruct (cur <? k); [|destruct (cur =? k); [|destruct (how mod 3 =? 1)]]; cbn [fst snd];
+    destruct ((6 <=? how) && ((a =? 1) || ((how <? 8) && (k <? cur)))); cbn [fst snd]; [apply rejected_ok; exact I|].
+    destruct (how =? 8); [|destruct (cur <? k); [|destruct (cur =? k); [|destruct (how mod 3 =? 1)]]]; cbn [fst snd];
       try (apply rejected_ok; exact I); apply simple_ok; auto with s3; try apply c0_frames; cbn; try reflexivity; try lia; intros; lia.
   - (* GDestroy *)
     destruct (inr g NG); cbn [fst snd]; [|apply rejected_ok; exact I].
